@@ -38,6 +38,18 @@ pub(crate) fn pad_column_to_wires(pad_column: usize) -> Range<usize> {
     first..first + WIRES_PER_COLUMN
 }
 
+#[cfg(feature = "verif-hooks")]
+#[doc(hidden)]
+pub mod verif_matching {
+    //! Verification hook: public wrappers of the crate-private index maps.
+    pub fn wire_to_pad_column(wire: usize) -> usize {
+        super::wire_to_pad_column(wire)
+    }
+    pub fn pad_column_to_wires(pad_column: usize) -> std::ops::Range<usize> {
+        super::pad_column_to_wires(pad_column)
+    }
+}
+
 #[derive(Clone, Copy, Debug)]
 struct WireHit {
     phi: Angle,
